@@ -25,6 +25,26 @@ def verdictGo (cancelOnFailure : Bool) (failedSoFar : Bool) : List JobSlot → B
 
 def verdict (cancelOnFailure : Bool) (jobs : List JobSlot) : Bool := verdictGo cancelOnFailure false jobs
 
+/-- What the combined error of Parallelize lists. -/
+inductive PErrItem where
+  | job (i : Nat)      -- the error returned by job i
+  | ctx                -- ctx.Err() recorded by the dispatch loop
+  deriving DecidableEq, Repr
+
+/-- The combined error as coded (after fix 6d16415): every error is stored at the index of its
+    job — the context error at the index of the job that was not dispatched because of it — and
+    the non-nil entries are joined in index order.  The schedule is `completed` (the jobs that
+    ran, in the order they finished) and `stopAt` (where the dispatch loop saw the cancellation,
+    if it did). -/
+def joinedErrors (fails : List Bool) (completed : List Nat) (stopAt : Option Nat) : List PErrItem :=
+  (List.range fails.length).filterMap fun i =>
+    if completed.contains i && fails.getD i false then some (.job i)
+    else if stopAt = some i then some .ctx else none
+
+/-- The combined error before the fix: appended in completion order. -/
+def joinedErrorsOld (fails : List Bool) (completed : List Nat) : List PErrItem :=
+  (completed.filter fun i => fails.getD i false).map .job
+
 /-- "Collect then sort": results arrive in completion order (a permutation of the jobs'
     results) and are sorted with a comparison `le`. -/
 def collectSorted {α : Type} (le : α → α → Bool) (arrived : List α) : List α := arrived.mergeSort le
